@@ -1,0 +1,47 @@
+//go:build verif
+
+// Machine-checked contracts for this package (comment-only; compiled only with -tags verif,
+// and even then contributes no code).  Read by /verif/govc; see /verif/DESIGN.md.
+
+package proxy
+
+//@ -- ---------------------------------------------------------------- C42: service NAT maps stay consistent mid-update
+//@ -- (1) updateService: the backends of a service are written at consecutive indexes 0,1,2,...; only ready
+//@ --     endpoints are written; local ones come first; and the frontend is written last, with a backend count
+//@ --     equal to the number of backends written and a local count equal to the number of local ones.
+//@ ghost c42N int
+//@ ghost c42Loc int
+//@ ghost c42IsLocal bool
+//@ ghost c42Ready bool
+//@ ghost c42RemoteWritten bool
+//@ ghost c42FrontWritten bool
+//@ func (*Syncer).updateService
+//@   property C42
+//@   option safety off
+//@   requires c42N == 0 && c42Loc == 0 && !c42RemoteWritten && !c42FrontWritten
+//@   ghost at call IsLocal: c42IsLocal = res
+//@   ghost at call IsReady: c42Ready = res
+//@   ghost at call writeSvcBackend: check arg1 == id && arg2 == uint32(c42N) && c42Ready && !c42FrontWritten ; check c42IsLocal ==> !c42RemoteWritten ; c42RemoteWritten = c42RemoteWritten || !c42IsLocal ; c42Loc = ite(c42IsLocal, c42Loc + 1, c42Loc) ; c42N = c42N + 1
+//@   ghost at call writeSvc: check arg2 == id && arg3 == c42N && arg4 == c42Loc && arg4 <= arg3 ; c42FrontWritten = true
+//@   ensures res2 == nil ==> c42FrontWritten && res0 == c42N && res1 == c42Loc
+//@   loop 1 invariant -1 <= rangeindex && rangeindex < len(eps) && 0 <= cnt && cnt <= rangeindex + 1 && c42N == cnt && c42Loc == local && local == cnt && !c42RemoteWritten && !c42FrontWritten
+//@   loop 2 invariant -1 <= rangeindex && rangeindex < len(eps) && 0 <= local && local <= cnt && cnt <= local + rangeindex + 1 && c42N == cnt && c42Loc == local && !c42FrontWritten
+
+//@ -- (2) apply: the map writes go out in the safe order - frontends to delete first, then new backends (and the
+//@ --     Maglev backends), then new/changed frontends, and unused backends last.
+//@ ghost c42FrontDel bool
+//@ ghost c42BackUpd bool
+//@ ghost c42MagUpd bool
+//@ ghost c42FrontUpd bool
+//@ ghost c42BackDel bool
+//@ func (*Syncer).apply
+//@   property C42
+//@   option safety off
+//@   option stable (*Syncer).bpfSvcs, (*Syncer).bpfEps, (*Syncer).bpfMaglevEps
+//@   requires s != nil && !c42FrontDel && !c42BackUpd && !c42MagUpd && !c42FrontUpd && !c42BackDel
+//@   ghost at call ApplyDeletionsOnly#1: check arg0 == s.bpfSvcs && !c42BackUpd && !c42MagUpd && !c42FrontUpd && !c42BackDel ; c42FrontDel = true
+//@   ghost at call ApplyUpdatesOnly#1: check arg0 == s.bpfEps && c42FrontDel && !c42FrontUpd && !c42BackDel ; c42BackUpd = true
+//@   ghost at call ApplyAllChanges: check arg0 == s.bpfMaglevEps && c42FrontDel && !c42FrontUpd ; c42MagUpd = true
+//@   ghost at call ApplyUpdatesOnly#2: check arg0 == s.bpfSvcs && c42FrontDel && c42BackUpd && c42MagUpd && !c42BackDel ; c42FrontUpd = true
+//@   ghost at call ApplyDeletionsOnly#2: check arg0 == s.bpfEps && c42FrontUpd ; c42BackDel = true
+//@   ensures res == nil ==> c42FrontDel && c42BackUpd && c42MagUpd && c42FrontUpd && c42BackDel
